@@ -17,6 +17,8 @@ func init() {
 		},
 		Stages: []Stage{
 			{Name: "decision", Pkg: "./pkg/station/lib", Run: "^TestVerifC06Decision$", Drivers: []string{"lib"}, TimeoutQ: 10 * time.Minute, TimeoutT: 40 * time.Minute},
+			{Name: "reload", Pkg: "./pkg/station/lib", Run: "^TestVerifC06ReloadConsistency$", Drivers: []string{"lib"}, Race: true, TimeoutQ: 10 * time.Minute, TimeoutT: 40 * time.Minute,
+				RaceFilter: func(r RaceReport) bool { return r.Has("station/lib.") }},
 			{Name: "e2e", Pkg: "./pkg/station/lib", Run: "^TestVerifC06EndToEnd$", Drivers: []string{"lib"}, TimeoutQ: 10 * time.Minute, TimeoutT: 40 * time.Minute},
 		},
 	})
